@@ -22,8 +22,15 @@ type receivePayloadQueue struct {
 func newReceivePayloadQueue(maxTSNOffset uint32) *receivePayloadQueue {
 	maxTSNOffset = ((maxTSNOffset + 63) / 64) * 64
 
+	// The bitmask is a ring indexed by (tsn/64) % len. The index is only continuous
+	// across the 32-bit TSN wrap if len divides 2^26, so round it up to a power of two.
+	nWords := uint32(1)
+	for nWords < maxTSNOffset/64 {
+		nWords <<= 1
+	}
+
 	return &receivePayloadQueue{
-		tsnBitmask:   make([]uint64, maxTSNOffset/64),
+		tsnBitmask:   make([]uint64, nWords),
 		maxTSNOffset: maxTSNOffset,
 	}
 }
